@@ -18,6 +18,7 @@ from graph import Adapter, Graph, explore, plan_walks, run_walks, skey
 from tlc import read_emitted, run_tlc
 
 SCALE = 2.0
+LEN_A = {0: 0.0, 1: 0.1}   # branch length of edge a: on its lower bound / positive
 RTOL = 1e-9
 EDGES = ["a", "b", "c"]
 _cache = {}
@@ -65,6 +66,8 @@ class LfAdapter(Adapter):
         ctx.lf = new_lf(1, 1)
         ctx.lf.set_param_rule("kappa", value=SCALE * 1)
         ctx.aln, ctx.mp, ctx.susp, ctx.cm = 1, 1, False, None
+        ctx.lenA = 1
+        ctx.lf.set_param_rule("length", edge="a", value=LEN_A[1])
         return ctx
 
     def apply(self, ctx, act, args):
@@ -89,6 +92,9 @@ class LfAdapter(Adapter):
         elif act == "End":
             ctx.cm.__exit__(None, None, None)
             ctx.cm, ctx.susp = None, False
+        elif act == "SetLen":
+            lf.set_param_rule("length", edge="a", value=LEN_A[args[0]])  # by value, still a free parameter
+            ctx.lenA = args[0]
         elif act == "SetBadAln":
             lf.set_alignment(fx["aln"][0])  # postponed: nothing is evaluated yet
             ctx.aln = 0
@@ -138,7 +144,9 @@ class LfAdapter(Adapter):
             const[e] = bool(s.is_constant)
             v = float(s.get_default_value()) / SCALE
             val[e] = int(round(v)) if abs(v - round(v)) < 1e-9 else v
-        state = {"blk": blk, "const": const, "val": val, "mp": ctx.mp, "aln": ctx.aln, "susp": ctx.susp}
+        state = {"blk": blk, "const": const, "val": val, "mp": ctx.mp, "aln": ctx.aln, "susp": ctx.susp, "lenA": ctx.lenA}
+        if abs(lf.defn_for["length"].assignments[("a",)].get_default_value() - LEN_A[ctx.lenA]) > 1e-12 if ("a",) in lf.defn_for["length"].assignments else False:
+            anomalies.append("length-setting-differs")
         if not ctx.susp and ctx.aln != 0:
             # what the user sees: per-edge values, nfp, lnL
             for e in EDGES:
@@ -175,6 +183,7 @@ class LfAdapterChecked(LfAdapter):
         anomalies = list(state.get("anomalies", []))
         # a function newly built from the state the history should have produced
         ref = new_lf(state["aln"], state["mp"])
+        ref.set_param_rule("length", edge="a", value=LEN_A[state["lenA"]])
         done = set()
         for e in EDGES:
             b = tuple(state["blk"][e])
